@@ -25,6 +25,12 @@ PROBES = ['# h #\n', 't\n===\n', '> q\nl\n---\n', '```py\nc\n```\n', '<!-- c\n--
           '[r]\n\n[r]: /u "t"\n', '|a|b|\n|-|-|\n|c|d|\n', '&amp; &copy;\n', '$m$ [[w|l]]\n', '{{m}}\nx\n{{/m}}\n', 'hello world\n',
           '<?p\n?>\n\n<b\nc>\n', '> ```\n> x\n\n* a\n\n  b\n', 'l1\n\n> l2\n> t\n> ===\n\n- l3 `c`\n']
 FAULT_PROBES = [2, 5, 6, 13, 14]
+# second part of the observation vector: every text of <= 2 (thorough: 3) lines over the line alphabet under the
+# renderers whose constructors do not all touch the token lists (so that state left behind by an earlier context
+# is not papered over by add_token/remove_token)
+WIDE_RENDERERS = [('Html', {}), ('Html', dict(process_html_tokens=False)), ('Ast', {}), ('Markdown', {})]
+WIDE_LINES = {'quick': 2, 'thorough': 2}
+_WIDE_K = 2
 FAULT_KINDS = ['find', 'sctor', 'start', 'read', 'bctor']
 BOUNDS = {'quick': dict(depth=4, fault_depth=2, baseline='one-subprocess'),
           'thorough': dict(depth=6, fault_depth=3, baseline='subprocess-per-probe')}
@@ -197,7 +203,63 @@ def observe():
     pristine.reinstate(cap)
     out.append([t.__name__ for t in block_token._token_types])
     out.append([t.__name__ for t in span_token._token_types])
+    # wide part: digest per renderer over all short texts of the line alphabet
+    import itertools
+    import hashlib
+    from mc import spaces
+    L = spaces.LINES
+    for name, kw in WIDE_RENDERERS:
+        h = hashlib.sha1()
+        first_bad = None
+        for n in range(1, _WIDE_K + 1):
+            for ws in itertools.product(L, repeat=n):
+                text = spaces.lines_text(ws)
+                pristine.reinstate(cap)
+                try:
+                    with configs.renderer_class(name)(**kw) as r:
+                        o = r.render(Document(text))
+                except Exception as e:
+                    o = 'EXC ' + type(e).__name__
+                h.update(o.encode('utf-8', 'replace') + b'\0')
+        out.append(h.hexdigest())
+    pristine.reinstate(cap)
     return out
+
+
+def wide_detail(base_state_hist):
+    """which short text differs under which renderer (used only to describe a violation)"""
+    import itertools
+    from mistletoe import Document
+    from mc import spaces
+    res = []
+    L = spaces.LINES
+
+    def render_all(name, kw):
+        cap = pristine.capture()
+        outs = {}
+        for n in range(1, _WIDE_K + 1):
+            for ws in itertools.product(L, repeat=n):
+                text = spaces.lines_text(ws)
+                pristine.reinstate(cap)
+                try:
+                    with configs.renderer_class(name)(**kw) as r:
+                        outs[text] = r.render(Document(text))
+                except Exception as e:
+                    outs[text] = 'EXC ' + type(e).__name__
+        pristine.reinstate(cap)
+        return outs
+    for name, kw in WIDE_RENDERERS:
+        pristine.restore()
+        ref = render_all(name, kw)
+        stack = build(base_state_hist)
+        if stack:
+            return res
+        got = render_all(name, kw)
+        for t in ref:
+            if ref[t] != got[t]:
+                res.append(dict(renderer=name + str(kw or ''), text=t, fresh=ref[t], after_history=got[t]))
+                break
+    return res
 
 
 def obs_labels():
@@ -207,6 +269,7 @@ def obs_labels():
             labels.append('%s%s on %r' % (name, kw or '', d))
         labels.append('AST of %r' % d)
     labels += ['block token list', 'span token list']
+    labels += ['all texts of <= %d lines over the line alphabet under %s%s' % (_WIDE_K, n, k or '') for n, k in WIDE_RENDERERS]
     return labels
 
 
@@ -215,7 +278,8 @@ def baseline(mode):
     code = ('import sys, json; sys.path.insert(0, %r); sys.dont_write_bytecode = True\n'
             'from mc import core; core.import_repo()\n'
             'from checks import c11\n'
-            'print(json.dumps(c11.observe()))\n') % core.VERIF
+            'c11._WIDE_K = %d\n'
+            'print(json.dumps(c11.observe()))\n') % (core.VERIF, _WIDE_K)
     env = dict(os.environ, PYTHONHASHSEED='0')
     if mode == 'one-subprocess':
         p = subprocess.run([sys.executable, '-c', code], capture_output=True, text=True, env=env, cwd=core.VERIF)
@@ -227,7 +291,8 @@ def baseline(mode):
              'from mc import core; core.import_repo()\n'
              'from checks import c11\n'
              'c11.PROBES[:] = [c11.PROBES[int(sys.argv[1])]]\n'
-             'print(json.dumps(c11.observe()))\n') % core.VERIF
+             'c11._WIDE_K = %d\n'
+             'print(json.dumps(c11.observe()))\n') % (core.VERIF, _WIDE_K)
     procs = [subprocess.Popen([sys.executable, '-c', code1, str(i)], stdout=subprocess.PIPE, stderr=subprocess.PIPE, text=True, env=env, cwd=core.VERIF)
              for i in range(len(PROBES))]
     out = []
@@ -237,8 +302,9 @@ def baseline(mode):
         if p.returncode != 0:
             raise SystemExit('HARNESS-ERROR C11 baseline subprocess failed:\n' + se[-2000:])
         v = json.loads(so.strip().splitlines()[-1])
-        out += v[:-2]
-        tails = v[-2:]
+        nt = 2 + len(WIDE_RENDERERS)
+        out += v[:-nt]
+        tails = v[-nt:]
     return out + tails
 
 
@@ -296,8 +362,9 @@ def w_observe(args):
 
 
 def explore(tier, seed):
-    global _BASE, _FOPS
+    global _BASE, _FOPS, _WIDE_K
     b = BOUNDS[tier]
+    _WIDE_K = WIDE_LINES[tier]
     pristine.restore()
     _BASE = baseline(b['baseline'])
     pristine.restore()
@@ -347,9 +414,11 @@ def explore(tier, seed):
                 for hist in mism:
                     raise SystemExit('HARNESS-ERROR C11 state does not rebuild deterministically from its history: %r' % (hist,))
                 for hist, diffs, got, want in bad:
-                    sig = 'history-changes-result:' + labels[diffs[0]].split(' on ')[0]
-                    agg.fail(dict(history=[list(op) for op in hist]), sig,
-                             detail='differs: ' + '; '.join(labels[i] for i in diffs), expected=want, observed=got)
+                    sig = 'history-changes-result:' + labels[diffs[0]].split(' on ')[0].split(' under ')[-1]
+                    detail = 'differs: ' + '; '.join(labels[i] for i in diffs)
+                    if diffs[0] >= len(labels) - len(WIDE_RENDERERS):
+                        detail += ' ' + json.dumps(wide_detail(hist))[:600]
+                    agg.fail(dict(history=[list(op) for op in hist]), sig, detail=detail, expected=want, observed=got)
             for hist, key, sd in fresh_states:
                 agg.outcome('stack=%d' % sd)
             frontier = [h for h, k, sd in fresh_states]
@@ -375,6 +444,6 @@ def replay(case):
     if o != base:
         labels = obs_labels()
         diffs = [i for i, (a, b) in enumerate(zip(o, base)) if a != b]
-        return dict(sig='history-changes-result:' + labels[diffs[0]].split(' on ')[0], detail='differs: ' + '; '.join(labels[i] for i in diffs[:4]),
+        return dict(sig='history-changes-result:' + labels[diffs[0]].split(' on ')[0].split(' under ')[-1], detail='differs: ' + '; '.join(labels[i] for i in diffs[:4]),
                     expected=[base[i] for i in diffs[:2]], observed=[o[i] for i in diffs[:2]])
     return None
